@@ -899,7 +899,7 @@ class Explorer:
             out.add({"eq": r == "=", "ne": r != "=", "slt": r == "<", "sle": r in "<=", "sgt": r == ">", "sge": r in ">="}[pred])
         return out
 
-    def rel_of(self, env, oa, ob):
+    def rel_of(self, env, oa, ob, _depth=0):
         """signed relation subset of '<=>' between two operands: from a recorded fact, identity, or their ranges; None if unknown"""
         oa, ob = list(oa), list(ob)
         if oa[0] in ("i", "a") and ob[0] in ("i", "a"):
@@ -912,6 +912,17 @@ class Explorer:
             r = env.get(("rel", kb, ka))
             if r is not None:
                 return frozenset({"<": ">", ">": "<", "=": "="}[c] for c in r)
+        # a select whose condition is decided on this path is a copy of the chosen arm
+        for x, y, flip in ((oa, ob, False), (ob, oa, True)):
+            if x[0] == "i" and _depth < 4:
+                d = self.f.insts[x[1]]
+                if d.op == "select" and d.type != "i1":
+                    c = singleton(self.eval(d.ops[0], env))
+                    if c is not None:
+                        r = self.rel_of(env, d.ops[1] if c else d.ops[2], y, _depth + 1)
+                        if r is None:
+                            return None
+                        return frozenset({"<": ">", ">": "<", "=": "="}[ch] for ch in r) if flip else r
         a, b = self.eval(oa, env), self.eval(ob, env)
         if a is None or b is None or a[0] != "int" or b[0] != "int":
             return None
@@ -1069,6 +1080,48 @@ class Explorer:
             s = to_signed_ivs(av)
             if d.d.get("nsw"):
                 self._set_int(d.ops[0], inter(self.eval(d.ops[0], e), from_signed_ivs(w, [(a - c, b - c) for a, b in s])), e)
+        elif d.op == "select" and d.ops[0][0] == "i" and self._minmax(d) is not None and getattr(self, "_sel_depth", 0) < 6:
+            # max(a, b) <= U  =>  a <= U and b <= U ;  min(a, b) >= L  =>  a >= L and b >= L
+            kind = self._minmax(d)
+            w = av[1]
+            sv = to_signed_ivs(av)
+            half = 1 << (w - 1)
+            bound = from_signed_ivs(w, [(-half, sv[-1][1])]) if kind == "max" else from_signed_ivs(w, [(sv[0][0], half - 1)])
+            self._sel_depth = getattr(self, "_sel_depth", 0) + 1
+            try:
+                for arm in d.ops[1:]:
+                    if arm[0] in ("i", "a"):
+                        cur = self.eval(arm, e)
+                        nv = inter(cur, bound) if cur is not None and cur[0] == "int" else bound
+                        if nv != cur and not is_empty(nv):
+                            self._set_int(arm, nv, e)
+            finally:
+                self._sel_depth -= 1
+        elif d.op == "select" and d.ops[0][0] == "i" and getattr(self, "_sel_depth", 0) < 6:
+            # the value of a select excludes one arm entirely: the condition is decided (cleanup-slot selects of constants)
+            a1, a2 = self.eval(d.ops[1], e), self.eval(d.ops[2], e)
+            if a1 is not None and a2 is not None and a1[0] == "int" and a2[0] == "int":
+                can1, can2 = not is_empty(inter(a1, av)), not is_empty(inter(a2, av))
+                if can1 != can2:
+                    self._sel_depth = getattr(self, "_sel_depth", 0) + 1
+                    try:
+                        envs = self.refine(d.ops[0], can1, e)
+                    finally:
+                        self._sel_depth -= 1
+                    if len(envs) != 1:
+                        # a disjunction: at least the truth of the condition itself is known
+                        if envs:
+                            e2_ = dict(e)
+                            e2_[("i", d.ops[0][1])] = const(1 if can1 else 0, 1)
+                            envs = [e2_]
+                    if len(envs) == 1:
+                        e.update(envs[0])
+                        arm = d.ops[1] if can1 else d.ops[2]
+                        if arm[0] in ("i", "a"):
+                            cur = self.eval(arm, e)
+                            nv = inter(cur, av) if cur is not None and cur[0] == "int" else av
+                            if not is_empty(nv) and nv != cur:
+                                self._set_int(arm, nv, e)
         elif d.op in ("sdiv", "udiv") and d.ops[1][0] == "c" and d.ops[0][0] in ("i", "a"):
             # x / c in [a, b]  (truncating division, c > 0)  =>  x in [a*c - (c-1 if a <= 0), b*c + (c-1 if b >= 0)]
             w = av[1]
@@ -1095,6 +1148,19 @@ class Explorer:
             cur = self.eval(d.ops[0], e)
             nv = mk(w, ivs)
             self._set_int(d.ops[0], inter(cur, nv) if cur is not None and cur[0] == "int" else nv, e)
+
+    def _minmax(self, d):
+        """'max' / 'min' when select d is  (a > b ? a : b)  resp.  (a < b ? a : b)  (signed), else None"""
+        c = self.f.insts[d.ops[0][1]]
+        if c.op != "icmp" or c.pred not in ("sgt", "sge", "slt", "sle"):
+            return None
+        x, y = c.ops
+        a, b = d.ops[1], d.ops[2]
+        if list(x) == list(a) and list(y) == list(b):
+            return "max" if c.pred in ("sgt", "sge") else "min"
+        if list(x) == list(b) and list(y) == list(a):
+            return "min" if c.pred in ("sgt", "sge") else "max"
+        return None
 
     def _set_ptr(self, o, av, e):
         e[(o[0], o[1])] = av
@@ -1236,7 +1302,10 @@ class Explorer:
                                         if cur is None or cur[0] != "int" or is_empty(cur) or umax(cur) + c >= half:
                                             cur = None          # the increment may wrap: no bound
                                 else:
-                                    cur = self.eval(o, env)     # entry edge
+                                    cur = self.eval(o, env)     # entry edge: the counter has exactly its initial value (the first test of the loop is decided)
+                                    if cur is not None and cur[0] == "int" and not is_empty(cur):
+                                        newv[k] = cur
+                                        break
                                 if cur is not None and cur[0] == "int" and not is_empty(cur):
                                     sv = to_signed_ivs(cur)
                                     newv[k] = from_signed_ivs(w, [(sv[0][0], half - 1)]) if sg > 0 else from_signed_ivs(w, [(-half, sv[-1][1])])
@@ -1406,12 +1475,18 @@ def _join(e1, e2, b, f):
                 u = union(v, e2[k])
                 if u is not None and not is_full(u):
                     out[k] = u
+        elif k[0] == "rel":
+            # a relation fact known on both sides: the union of the admitted orderings (absent = nothing known)
+            if k in e2:
+                u = frozenset(v) | frozenset(e2[k])
+                if len(u) < 3:
+                    out[k] = u
         else:
             if e2.get(k) != v:
                 raise AnalysisBroken("more than %d distinct states at block %s of %s and they differ in %s (state cap)" % (Explorer.CAP, b.name, f.name, k))
             out[k] = v
     for k, v in e2.items():
-        if k[0] not in ("i", "a") and k not in e1:
+        if k[0] not in ("i", "a", "rel") and k not in e1:
             raise AnalysisBroken("more than %d distinct states at block %s of %s and they differ in %s (state cap)" % (Explorer.CAP, b.name, f.name, k))
     return out
 
@@ -1431,10 +1506,13 @@ def _subsumes(mg, env):
                         return False
                 else:
                     return False
+        elif k[0] == "rel":
+            if k not in env or not frozenset(env[k]) <= frozenset(v):
+                return False
         elif env.get(k) != v:
             return False
     for k in env:
-        if k[0] not in ("i", "a") and k not in mg:
+        if k[0] not in ("i", "a", "rel") and k not in mg:
             return False
     return True
 
